@@ -31,6 +31,12 @@ const (
 	OpTypeDelete = 2
 	OpTypeMerge  = 3
 
+	// opTypeBatch marks the header record that AppendBatch writes in front of
+	// the entries of a batch. It carries the number of entries that follow, so
+	// that the reader can deliver a batch completely or not at all. It never
+	// leaves the package: the reader consumes it.
+	opTypeBatch = 4
+
 	// Header layout
 	// - CRC (4 bytes)
 	// - Length (2 bytes)
@@ -231,6 +237,17 @@ func ReuseWAL(cfg *config.Config, dir string, nextSeq uint64) (*WAL, error) {
 	}
 
 	return wal, nil
+}
+
+// batchHeaderPayloadSize is the payload size of a batch header record:
+// type(1) + seq(8) + keylen(4) + vallen(4) + count(4)
+const batchHeaderPayloadSize = 1 + 8 + 4 + 4 + 4
+
+// batchCountValue encodes the entry count of a batch header
+func batchCountValue(n int) []byte {
+	v := make([]byte, 4)
+	binary.LittleEndian.PutUint32(v, uint32(n))
+	return v
 }
 
 // tailIntact reports whether every record of the WAL file can be read up to
@@ -716,6 +733,9 @@ func (w *WAL) AppendBatch(entries []*Entry) (uint64, error) {
 		totalSize += HeaderSize + payloadSize
 	}
 
+	// Account for the batch header record
+	totalSize += HeaderSize + batchHeaderPayloadSize
+
 	// Ensure writer buffer is large enough for atomic write
 	currentBufferSize := w.writer.Size()
 	availableSpace := currentBufferSize - w.writer.Buffered()
@@ -735,6 +755,13 @@ func (w *WAL) AppendBatch(entries []*Entry) (uint64, error) {
 	}
 
 	// Now write all entries atomically (no intermediate flushes)
+	// The batch header comes first: it tells the reader how many entries
+	// belong to the batch, so that a batch cut short by a crash is dropped as
+	// a whole at recovery instead of being applied partially.
+	if err := w.writeRecord(RecordTypeFull, opTypeBatch, startSeqNum, nil, batchCountValue(len(entries))); err != nil {
+		return 0, fmt.Errorf("failed to write batch header: %w", err)
+	}
+
 	// All entries in the batch share the same sequence number
 	for i, entry := range entries {
 		// Write the entry using its original type and the same sequence number
@@ -811,6 +838,9 @@ func (w *WAL) AppendBatchWithSequence(entries []*Entry, startSequence uint64) (u
 		totalSize += HeaderSize + payloadSize
 	}
 
+	// Account for the batch header record
+	totalSize += HeaderSize + batchHeaderPayloadSize
+
 	// Ensure writer buffer is large enough for atomic write
 	currentBufferSize := w.writer.Size()
 	availableSpace := currentBufferSize - w.writer.Buffered()
@@ -830,6 +860,13 @@ func (w *WAL) AppendBatchWithSequence(entries []*Entry, startSequence uint64) (u
 	}
 
 	// Now write all entries atomically (no intermediate flushes)
+	// The batch header comes first: it tells the reader how many entries
+	// belong to the batch, so that a batch cut short by a crash is dropped as
+	// a whole at recovery instead of being applied partially.
+	if err := w.writeRecord(RecordTypeFull, opTypeBatch, startSeqNum, nil, batchCountValue(len(entries))); err != nil {
+		return 0, fmt.Errorf("failed to write batch header: %w", err)
+	}
+
 	// All entries in the batch share the same sequence number
 	for i, entry := range entries {
 		// Write the entry using its original type and the same sequence number
